@@ -46,6 +46,11 @@ def spell(path, how, wd=""):
         return "./././" + rel
     if how == 7:
         return {"__pabs": path}  # absolute path handed over as a PathLike object
+    if how == 8:
+        return {"__abs": "./" + path}  # an absolute path that is not in normal form: <root>/./x
+    if how == 9:
+        head, _, tail = path.rpartition("/")
+        return {"__abs": (head + "/" if head else "") + "zq/../" + tail}  # <root>/d/zq/../x
     raise ValueError(how)
 
 
